@@ -259,6 +259,9 @@ class _CryptConfig:
                 value = splitcomma(value)
             elif not isinstance(value, (list, tuple)):
                 raise ExpectedTypeError(value, "str or seq", "deprecated")
+            else:
+                # don't keep a reference to the caller's list
+                value = list(value)
             if "auto" in value:
                 # XXX: have any statements been made about when this is default?
                 #      should do it in 1.8 at latest.
